@@ -19,7 +19,13 @@ def string_is_geometry(sequence: Sequence, state: dict) -> bool:
     sys.stderr = devnull
     try:
         result = all(wkt.loads(value) for value in sequence)
-    except (WKTReadingError, AttributeError, UnicodeEncodeError, TypeError):
+    except (
+        WKTReadingError,
+        AttributeError,
+        UnicodeEncodeError,
+        TypeError,
+        NotImplementedError,
+    ):
         result = False
     finally:
         sys.stderr = previous_stderr
